@@ -2,6 +2,8 @@
 
 None of them carries user data: a segment is (mode, is-default-encoding, number of payload bits,
 character count); a buffer only counts/records the bits appended to it."""
+import ast
+
 from .. import ev, iso
 from ..interp import Interp, FuncVal, callable_env
 from ..src import Unknown
@@ -146,6 +148,26 @@ class SAModel(tuple):
     parity = property(lambda s: s[3])
 
 
+def make_sa_info(fx, cls_, number, total, parity):
+    """The Structured Append information as the repository's own class builds it from (number, total, parity); a class that takes
+    the mode indicator as a field of its own gets the Structured Append indicator."""
+    from .. import src as _src
+    sa_kw = dict(number=number, total=total, parity=parity)
+    try:
+        cnode = fx.forest.cls('encoder', '_StructuredAppendInfo')
+        fields_ = [st_.target.id for st_ in cnode.body if isinstance(st_, ast.AnnAssign) and isinstance(st_.target, ast.Name)]
+        newf = [st_ for st_ in cnode.body if isinstance(st_, ast.FunctionDef) and st_.name in ('__new__', '__init__')]
+        params_ = _src.all_params(newf[0])[1:] if newf else fields_
+    except Unknown:
+        params_ = []
+    if 'mode' in params_:
+        sa_kw['mode'] = ev.module_consts(fx.forest, 'consts').get('MODE_STRUCTURED_APPEND')
+    try:
+        return cls_(**sa_kw)
+    except (PyRaise, TypeError) as ex:
+        raise Unknown(f'_StructuredAppendInfo({", ".join(sa_kw)}) raises {getattr(ex, "name", type(ex).__name__)}: the internal interface changed')
+
+
 def trace_encode(fx, version, level, boosted, mask_in=None, eci=False, sa_info=None, boost_error=True, nsegs=1, segments=None,
                  real_write_segment=False, extra=None, real=(), run_real=()):
     """Interpret encoder._encode with every stage replaced by a recording stand-in.  Returns the list of
@@ -277,10 +299,7 @@ def trace_encode(fx, version, level, boosted, mask_in=None, eci=False, sa_info=N
         cls_ = genv.get('_StructuredAppendInfo')
         if cls_ is None or isinstance(cls_, FuncVal) or not callable(cls_):
             raise Unknown('no class _StructuredAppendInfo: the internal interface changed')
-        try:
-            sa_info = cls_(number=sa_info[1], total=sa_info[2], parity=sa_info[3])
-        except PyRaise as ex:
-            raise Unknown(f'_StructuredAppendInfo(number=, total=, parity=) raises {ex.name}: the internal interface changed')
+        sa_info = make_sa_info(fx, cls_, sa_info[1], sa_info[2], sa_info[3])
     res = FuncVal(fx.fn('encoder', '_encode'), genv, it).call_in_order(segs, None if level is None else lv[level], version, mask_in, eci, boost_error, sa_info)
     return rec, res, dict(buffers=bufs, segments=segs, M0=M0, M1=M1, genv=genv, interp=it)
 
